@@ -420,6 +420,17 @@ def main(mod, argv):
 
     total = merge(parts)
     lines = []
+    # generator-soundness / reference-oracle problems (keys HARNESS:*) are never violations: they are counted,
+    # written as replays for inspection, and above 0.5% of the evaluations the run is a harness error (exit 2)
+    harness_hits = {k: b for k, b in total["buckets"].items() if k.startswith("HARNESS:")}
+    for k in harness_hits:
+        del total["buckets"][k]
+    n_h = sum(b["count"] for b in harness_hits.values())
+    total["notes"]["generator_soundness_failures"] = {k: b["count"] for k, b in harness_hits.items()}
+    harness_bad = n_h > 0 and n_h > 0.005 * max(1, total["evaluations"])
+    for k, b in harness_hits.items():
+        path = write_replay(mod, k, b)
+        print(f"HARNESS-NOTE property={mod.ID} key={k} count={b['count']} replay={path} :: {b['detail'][:200]}")
     for key in sorted(total["buckets"]):
         b = total["buckets"][key]
         path = write_replay(mod, key, b)
@@ -432,6 +443,9 @@ def main(mod, argv):
         print(l)
     print(f"{mod.ID} {args.tier}: evaluations={total['evaluations']} distinct_nontrivial={len(total['nontrivial'])} "
           f"violating_buckets={len(lines)} known_hits={dict(total['known_hits'])} wall={wall:.1f}s")
+    if harness_bad:
+        print(f"HARNESS-ERROR property={mod.ID}: {n_h} generator-soundness failures in {total['evaluations']} evaluations")
+        return 2
     return 1 if lines else 0
 
 
